@@ -10,6 +10,7 @@ import (
 	"fmt"
 	"math/rand"
 	"sort"
+	"unicode/utf8"
 )
 
 // Violation is one refuting observation made by a monitor.
@@ -155,5 +156,9 @@ func Abbrev(s string, n int) string {
 	if len(s) <= n {
 		return s
 	}
-	return s[:n] + fmt.Sprintf("...(+%d bytes)", len(s)-n)
+	cut := n
+	for cut > 0 && !utf8.RuneStart(s[cut]) {
+		cut-- // never cut inside a multi-byte character
+	}
+	return s[:cut] + fmt.Sprintf("...(+%d bytes)", len(s)-cut)
 }
